@@ -1,6 +1,621 @@
 // Contract harnesses for statime-algo/src/estimator.rs (child module: sees private items).
-#![allow(unused_imports)]
+//
+// Property C42: "The multi-clock estimator keeps unrelated estimates intact".
+//
+// Method: the data-structure invariant `wf` (ids unique, internal/external disjoint, the index
+// blocks of clocks (2 rows) and links (1 row) tile 0..rows exactly, matrix shapes match) is shown
+// INDUCTIVE: every harness starts from an ARBITRARY well-formed state of bounded size (symbolic
+// number of clocks/links, symbolic ids, symbolic row layout, symbolic f64 matrix contents) - a
+// superset of the reachable states - runs ONE real operation and checks from the statement:
+//   * result well-formed again,
+//   * the id lists changed by exactly the requested id,
+//   * every OTHER clock's / link's reported value and variance, and every covariance between two
+//     surviving entities, is bit-identical before and after (f64::to_bits),
+//   * unknown / duplicate ids => Err,
+//   * progress_time: backwards => Err, otherwise time == new_time.
+// Bound: <= 3 internal clocks, <= 2 links, <= 2 external clocks (matrix <= 8x8), storage
+// NoAllocKalmanStorage<_, 64> (the real fixed-buffer storage).
+//
+// CBMC's sqrt()/powi() models are relational (not bit-deterministic), therefore the reported
+// *uncertainty* (= sqrt of a diagonal entry) is compared through its argument, the diagonal entry.
+#![allow(unused_imports, dead_code)]
 use super::*;
+use crate::storage::{MatrixStorage, NoAllocKalmanStorage};
+use arrayvec::ArrayVec;
+
+// ---------------------------------------------------------------------------------------------
+// Storage instance used by the harnesses.
+//
+// The estimator is generic over `KalmanStorageBase`. The two storages shipped with the crate
+// initialise a matrix with a loop over all cells (`array::from_fn` / `collect`), which forces an
+// unwinding bound of rows^2+1 = 65 on EVERY loop of the harness (CBMC cannot keep list lengths
+// constant across the `Result<Self, _>` the operations return). `VMat` is the same fixed buffer
+// as `[f64; N]` (N <= 64) with a loop-free initialiser; the lists are the crate's own `Vec`
+// storages (a pointer into a small heap object is far cheaper for CBMC than one into the state). `c42_p_matrix_storage_new_*` show that the shipped initialisers compute the
+// same cells.
+#[derive(Clone, Debug)]
+pub(crate) struct VMat<const N: usize>([f64; N]);
+impl<const N: usize> AsRef<[f64]> for VMat<N> {
+    fn as_ref(&self) -> &[f64] {
+        &self.0
+    }
+}
+impl<const N: usize> AsMut<[f64]> for VMat<N> {
+    fn as_mut(&mut self) -> &mut [f64] {
+        &mut self.0
+    }
+}
+macro_rules! fill_cells {
+    ($a:ident, $len:ident, $data:ident; $($i:literal)*) => {
+        $( if $i < $len && $i < N { $a[$i] = $data($i); } )*
+    };
+}
+impl<const N: usize> MatrixStorage for VMat<N> {
+    fn new(len: usize, mut data: impl FnMut(usize) -> f64) -> Self {
+        assert!(len <= N && N <= 64);
+        let mut a = [0.0f64; N];
+        fill_cells!(a, len, data; 0 1 2 3 4 5 6 7 8 9 10 11 12 13 14 15 16 17 18 19 20 21 22 23 24 25 26 27 28 29 30 31 32 33 34 35 36 37 38 39 40 41 42 43 44 45 46 47 48 49 50 51 52 53 54 55 56 57 58 59 60 61 62 63);
+        VMat(a)
+    }
+}
+
+#[derive(Clone, Debug)]
+pub(crate) struct SE<const N: usize>;
+impl<const N: usize> KalmanStorageBase for SE<N> {
+    type MatrixStorage = VMat<N>;
+    type ExternalClockStorage = std::vec::Vec<ClockId>;
+    type InternalClockStorage = std::vec::Vec<ClockInfo>;
+    type EstimatorLinkStorage = std::vec::Vec<LinkInfo>;
+    type FilterLinkStorage = std::vec::Vec<crate::filter::LinkInfo>;
+    type BoundStorage = std::vec::Vec<(f64, crate::filter::BoundType)>;
+}
+const MAXC: usize = 3;
+const MAXL: usize = 2;
+const MAXE: usize = 2;
+
+use crate::verif::{any_clock_id, any_link_id, any_timestamp, ts_raw, Ent};
+
+impl<Storage: KalmanStorageBase> EstimatorState<Storage> {
+    /// Arbitrary estimator state with at most the given numbers of clocks / links / external
+    /// clocks; NOT yet assumed well-formed.
+    pub(crate) fn verif_any(nc: usize, nl: usize, ne: usize) -> Self {
+        let rows = nc * ClockInfo::SIZE + nl * LinkInfo::SIZE;
+        let mut clock_info = ClockInfoList::<Storage::InternalClockStorage>::new();
+        for _ in 0..nc {
+            clock_info.0.push(ClockInfo {
+                id: any_clock_id(),
+                base_index: kani::any(),
+                wander: kani::any(),
+            });
+        }
+        let mut link_info = LinkInfoList::<Storage::EstimatorLinkStorage>::new();
+        for _ in 0..nl {
+            link_info.0.push(LinkInfo {
+                id: any_link_id(),
+                index: kani::any(),
+                decay_rate: kani::any(),
+            });
+        }
+        let mut external_clocks = ExternalClockList::<Storage::ExternalClockStorage>::new();
+        for _ in 0..ne {
+            external_clocks.0.push(any_clock_id());
+        }
+        Self {
+            time: any_timestamp(),
+            state: Matrix::new_vec(rows, |_| kani::any()),
+            uncertainty: Matrix::new(rows, rows, |_, _| kani::any()),
+            clock_info,
+            external_clocks,
+            link_info,
+        }
+    }
+
+    /// The data-structure invariant of the estimator.
+    /// (nc, nl, ne are the expected list lengths, passed as constants so that the loops below
+    /// have literal bounds; the lengths themselves are part of the predicate.)
+    pub(crate) fn verif_wf(&self, nc: usize, nl: usize, ne: usize) -> bool {
+        let rows = nc * ClockInfo::SIZE + nl * LinkInfo::SIZE;
+        let mut ok = self.clock_info.0.len() == nc
+            && self.link_info.0.len() == nl
+            && self.external_clocks.0.len() == ne
+            && self.state.cols() == 1
+            && self.state.rows() == rows
+            && self.uncertainty.rows() == rows
+            && self.uncertainty.cols() == rows;
+        if !ok {
+            return false;
+        }
+        // ids unique, internal and external disjoint
+        for i in 0..nc {
+            for j in 0..i {
+                ok &= self.clock_info.0[i].id != self.clock_info.0[j].id;
+            }
+            for j in 0..ne {
+                ok &= self.clock_info.0[i].id != self.external_clocks.0[j];
+            }
+        }
+        for i in 0..ne {
+            for j in 0..i {
+                ok &= self.external_clocks.0[i] != self.external_clocks.0[j];
+            }
+        }
+        for i in 0..nl {
+            for j in 0..i {
+                ok &= self.link_info.0[i].id != self.link_info.0[j].id;
+            }
+        }
+        // index blocks in range ...
+        for i in 0..nc {
+            let b = self.clock_info.0[i].base_index;
+            ok &= b < rows && b < rows - 1;
+        }
+        for i in 0..nl {
+            ok &= self.link_info.0[i].index < rows;
+        }
+        // ... and every row has exactly one owner (bijection entities <-> rows, given the count)
+        for r in 0..rows {
+            let mut owners = 0usize;
+            for i in 0..nc {
+                let b = self.clock_info.0[i].base_index;
+                if b == r || (b < usize::MAX && b + 1 == r) {
+                    owners += 1;
+                }
+            }
+            for i in 0..nl {
+                if self.link_info.0[i].index == r {
+                    owners += 1;
+                }
+            }
+            ok &= owners == 1;
+        }
+        ok
+    }
+
+    pub(crate) fn verif_n_clocks(&self) -> usize {
+        self.clock_info.0.len()
+    }
+    pub(crate) fn verif_n_links(&self) -> usize {
+        self.link_info.0.len()
+    }
+    pub(crate) fn verif_n_external(&self) -> usize {
+        self.external_clocks.0.len()
+    }
+    pub(crate) fn verif_clock_id(&self, i: usize) -> ClockId {
+        self.clock_info.0[i].id
+    }
+    pub(crate) fn verif_link_id(&self, i: usize) -> LinkId {
+        self.link_info.0[i].id
+    }
+    pub(crate) fn verif_external_id(&self, i: usize) -> ClockId {
+        self.external_clocks.0[i]
+    }
+    pub(crate) fn verif_time(&self) -> Timestamp<TAI> {
+        self.time
+    }
+
+    /// Row of an entity, looked up by id through the real lookup functions.
+    pub(crate) fn verif_row(&self, e: Ent) -> Option<usize> {
+        match e {
+            Ent::Off(id) => self.get_clock_info(id).ok().map(|c| c.offset_index()),
+            Ent::Freq(id) => self.get_clock_info(id).ok().map(|c| c.frequency_index()),
+            Ent::Delay(id) => self.get_link_info(id).ok().map(|l| l.index),
+        }
+    }
+
+    /// Estimate (bits) of an entity.
+    pub(crate) fn verif_value_bits(&self, e: Ent) -> u64 {
+        let r = self.verif_row(e).unwrap();
+        self.state[(r, 0)].to_bits()
+    }
+
+    /// Covariance (bits) between two entities; for e1 == e2 this is the variance whose sqrt is the
+    /// reported uncertainty.
+    pub(crate) fn verif_cov_bits(&self, e1: Ent, e2: Ent) -> u64 {
+        let r1 = self.verif_row(e1).unwrap();
+        let r2 = self.verif_row(e2).unwrap();
+        self.uncertainty[(r1, r2)].to_bits()
+    }
+
+    /// Entity number k (k < 2*clocks + links) in list order.
+    pub(crate) fn verif_entity(&self, nc: usize, k: usize) -> Ent {
+        if k < 2 * nc {
+            let id = self.clock_info.0[k / 2].id;
+            if k % 2 == 0 { Ent::Off(id) } else { Ent::Freq(id) }
+        } else {
+            Ent::Delay(self.link_info.0[k - 2 * nc].id)
+        }
+    }
+
+    pub(crate) fn verif_wander_bits(&self, id: ClockId) -> u64 {
+        self.get_clock_info(id).unwrap().wander.to_bits()
+    }
+    pub(crate) fn verif_decay_bits(&self, id: LinkId) -> u64 {
+        self.get_link_info(id).unwrap().decay_rate.to_bits()
+    }
+
+    /// Bit-for-bit equality of two estimator states (all fields).
+    pub(crate) fn verif_same(&self, o: &Self) -> bool {
+        let mut ok = ts_raw(self.time) == ts_raw(o.time)
+            && self.state.rows() == o.state.rows()
+            && self.state.cols() == o.state.cols()
+            && self.uncertainty.rows() == o.uncertainty.rows()
+            && self.uncertainty.cols() == o.uncertainty.cols()
+            && self.clock_info.0.len() == o.clock_info.0.len()
+            && self.link_info.0.len() == o.link_info.0.len()
+            && self.external_clocks.0.len() == o.external_clocks.0.len();
+        if !ok {
+            return false;
+        }
+        for i in 0..self.clock_info.0.len() {
+            let (a, b) = (self.clock_info.0[i], o.clock_info.0[i]);
+            ok &= a.id == b.id && a.base_index == b.base_index && a.wander.to_bits() == b.wander.to_bits();
+        }
+        for i in 0..self.link_info.0.len() {
+            let (a, b) = (self.link_info.0[i], o.link_info.0[i]);
+            ok &= a.id == b.id && a.index == b.index && a.decay_rate.to_bits() == b.decay_rate.to_bits();
+        }
+        for i in 0..self.external_clocks.0.len() {
+            ok &= self.external_clocks.0[i] == o.external_clocks.0[i];
+        }
+        let rows = self.state.rows();
+        if self.state.cols() == 1 {
+            for r in 0..rows {
+                ok &= self.state[(r, 0)].to_bits() == o.state[(r, 0)].to_bits();
+            }
+        }
+        for r in 0..self.uncertainty.rows() {
+            for c in 0..self.uncertainty.cols() {
+                ok &= self.uncertainty[(r, c)].to_bits() == o.uncertainty[(r, c)].to_bits();
+            }
+        }
+        ok
+    }
+}
+
+const MAXN: usize = 2 * MAXC + MAXL;
+
+/// Snapshot of everything the frame condition talks about: for each row-owner ("entity": clock
+/// offset, clock frequency, link delay - identified by id) its value bits and the covariance bits
+/// with every other entity.
+struct Snap {
+    n: usize,
+    ents: [Ent; MAXN],
+    val: [u64; MAXN],
+    cov: [[u64; MAXN]; MAXN],
+}
+
+fn rows_of<const N: usize>(
+    s: &EstimatorState<SE<N>>,
+    n: usize,
+    ents: &[Ent; MAXN],
+    skip: &impl Fn(Ent) -> bool,
+) -> [usize; MAXN] {
+    // one real lookup (get_clock_info / get_link_info) per clock / link
+    let mut rows = [usize::MAX; MAXN];
+    let mut k = 0;
+    while k < n {
+        let e = ents[k];
+        match e {
+            Ent::Off(id) => {
+                // entity k+1 is the frequency of the same clock (see verif_entity)
+                if !skip(e) {
+                    let ci = s.get_clock_info(id).expect("unrelated clock still known");
+                    rows[k] = ci.offset_index();
+                    rows[k + 1] = ci.frequency_index();
+                }
+                k += 2;
+            }
+            Ent::Delay(id) => {
+                if !skip(e) {
+                    rows[k] = s.get_link_info(id).expect("unrelated link still known").index;
+                }
+                k += 1;
+            }
+            Ent::Freq(_) => unreachable!(),
+        }
+    }
+    rows
+}
+
+fn snapshot<const N: usize>(s: &EstimatorState<SE<N>>, nc: usize, nl: usize) -> Snap {
+    let n = 2 * nc + nl;
+    let dummy = Ent::Off(unsafe { core::mem::transmute::<usize, ClockId>(0usize) });
+    let mut snap = Snap { n, ents: [dummy; MAXN], val: [0; MAXN], cov: [[0; MAXN]; MAXN] };
+    for k in 0..n {
+        snap.ents[k] = s.verif_entity(nc, k);
+    }
+    let rows = rows_of(s, n, &snap.ents, &|_| false);
+    for k in 0..n {
+        snap.val[k] = s.state[(rows[k], 0)].to_bits();
+        for m in 0..n {
+            snap.cov[k][m] = s.uncertainty[(rows[k], rows[m])].to_bits();
+        }
+    }
+    snap
+}
+
+fn ent_is_clock(e: Ent, id: ClockId) -> bool {
+    matches!(e, Ent::Off(i) | Ent::Freq(i) if i == id)
+}
+fn ent_is_link(e: Ent, id: LinkId) -> bool {
+    matches!(e, Ent::Delay(i) if i == id)
+}
+
+/// Frame: every entity of `before` for which `dropped` is false is still present in `after`, with
+/// bit-identical value, variance and covariances with all other kept entities.
+fn check_frame<const N: usize>(before: &Snap, after: &EstimatorState<SE<N>>, dropped: impl Fn(Ent) -> bool) {
+    let rows = rows_of(after, before.n, &before.ents, &dropped);
+    for k in 0..before.n {
+        if dropped(before.ents[k]) {
+            continue;
+        }
+        assert!(after.state[(rows[k], 0)].to_bits() == before.val[k], "unrelated estimate value unchanged");
+        for m in 0..before.n {
+            if dropped(before.ents[m]) {
+                continue;
+            }
+            assert!(
+                after.uncertainty[(rows[k], rows[m])].to_bits() == before.cov[k][m],
+                "unrelated (co)variance unchanged"
+            );
+        }
+    }
+}
+
+fn any_wf_state<const N: usize>(nc: usize, nl: usize, ne: usize) -> EstimatorState<SE<N>> {
+    let s = EstimatorState::<SE<N>>::verif_any(nc, nl, ne);
+    kani::assume(s.verif_wf(nc, nl, ne));
+    s
+}
+
+// ------------------------------------------------------------------------------------------------
+// The four structural operations, each from an arbitrary well-formed pre-state with nc clocks,
+// nl links, ne external clocks (ids, layout, contents symbolic) and a symbolic id argument.
+
+fn add_clock_frame<const N: usize>(nc: usize, nl: usize, ne: usize) {
+    let s = any_wf_state::<N>(nc, nl, ne);
+    let before = snapshot(&s, nc, nl);
+    let id = any_clock_id();
+    let known = s.is_known_clock(id);
+    let off = UncertainValue { value: kani::any(), uncertainty: kani::any() };
+    let freq = UncertainValue { value: kani::any(), uncertainty: kani::any() };
+    let wander: f64 = kani::any();
+    match s.add_clock(id, off, freq, wander) {
+        Err(e) => {
+            assert!(known, "adding a fresh clock id succeeds");
+            assert!(e == AlgoError::ClockAlreadyExists(id));
+        }
+        Ok(t) => {
+            assert!(!known, "duplicate clock id (internal or external) is rejected");
+            assert!(t.verif_wf(nc + 1, nl, ne), "invariant preserved, exactly one clock more");
+            check_frame(&before, &t, |_| false);
+            // the new clock reports what was given
+            let ci = *t.get_clock_info(id).expect("new clock known");
+            assert!(t.state[(ci.offset_index(), 0)].to_bits() == off.value.to_bits());
+            assert!(t.state[(ci.frequency_index(), 0)].to_bits() == freq.value.to_bits());
+            assert!(ci.wander.to_bits() == wander.to_bits());
+            kani::cover!(true, "ok reachable");
+        }
+    }
+    kani::cover!(known || nc + ne == 0, "duplicate reachable");
+}
+
+fn remove_clock_frame<const N: usize>(nc: usize, nl: usize, ne: usize) {
+    let s = any_wf_state::<N>(nc, nl, ne);
+    let before = snapshot(&s, nc, nl);
+    let id = any_clock_id();
+    let internal = s.is_internal_clock(id);
+    match s.remove_clock(id) {
+        Err(e) => {
+            assert!(!internal, "removing a known internal clock succeeds");
+            assert!(e == AlgoError::UnknownClock(id), "unknown (or external) id is rejected");
+        }
+        Ok(t) => {
+            assert!(internal);
+            assert!(t.verif_wf(nc - 1, nl, ne), "invariant preserved, exactly one clock less");
+            assert!(!t.is_internal_clock(id), "the removed clock is gone");
+            check_frame(&before, &t, |e| ent_is_clock(e, id));
+            kani::cover!(true, "ok reachable");
+        }
+    }
+    kani::cover!(!internal, "unknown id reachable");
+}
+
+fn add_link_frame<const N: usize>(nc: usize, nl: usize, ne: usize) {
+    let s = any_wf_state::<N>(nc, nl, ne);
+    let before = snapshot(&s, nc, nl);
+    let id = any_link_id();
+    let clocks_known = s.is_known_clock(id.first_clock()) && s.is_known_clock(id.second_clock());
+    let dup = s.get_link_info(id).is_ok();
+    let delay = UncertainValue { value: kani::any(), uncertainty: kani::any() };
+    let decay: f64 = kani::any();
+    match s.add_link(id, delay, decay) {
+        Err(e) => {
+            assert!(!clocks_known || dup, "adding a fresh link between known clocks succeeds");
+            assert!(
+                matches!(e, AlgoError::UnknownClock(c) if c == id.first_clock() || c == id.second_clock())
+                    || e == AlgoError::LinkAlreadyExists(id)
+            );
+        }
+        Ok(t) => {
+            assert!(clocks_known && !dup, "unknown clocks and duplicate link ids are rejected");
+            assert!(t.verif_wf(nc, nl + 1, ne), "invariant preserved, exactly one link more");
+            check_frame(&before, &t, |_| false);
+            let li = *t.get_link_info(id).expect("new link known");
+            assert!(t.state[(li.index, 0)].to_bits() == delay.value.to_bits());
+            assert!(li.decay_rate.to_bits() == decay.to_bits());
+            kani::cover!(true, "ok reachable");
+        }
+    }
+    kani::cover!(dup || nl == 0, "duplicate reachable");
+    kani::cover!(!clocks_known, "unknown clock reachable");
+}
+
+fn remove_link_frame<const N: usize>(nc: usize, nl: usize, ne: usize) {
+    let s = any_wf_state::<N>(nc, nl, ne);
+    let before = snapshot(&s, nc, nl);
+    let id = any_link_id();
+    let known = s.get_link_info(id).is_ok();
+    match s.remove_link(id) {
+        Err(e) => {
+            assert!(!known, "removing a known link succeeds");
+            assert!(e == AlgoError::UnknownLink(id));
+        }
+        Ok(t) => {
+            assert!(known, "unknown link id is rejected");
+            assert!(t.verif_wf(nc, nl - 1, ne), "invariant preserved, exactly one link less");
+            assert!(t.get_link_info(id).is_err(), "the removed link is gone");
+            check_frame(&before, &t, |e| ent_is_link(e, id));
+            kani::cover!(true, "ok reachable");
+        }
+    }
+    kani::cover!(!known, "unknown id reachable");
+}
+
+/// external clocks carry no estimate: adding / removing one leaves every matrix cell and every
+/// index untouched; duplicate (internal or external) / unknown ids are rejected.
+fn external_frame<const N: usize>(nc: usize, nl: usize, ne: usize) {
+    let s = any_wf_state::<N>(nc, nl, ne);
+    let before = snapshot(&s, nc, nl);
+    let id = any_clock_id();
+    let known = s.is_known_clock(id);
+    let external = s.is_external_clock(id);
+    if kani::any() {
+        match s.add_external_clock(id) {
+            Err(e) => {
+                assert!(known);
+                assert!(e == AlgoError::ClockAlreadyExists(id));
+            }
+            Ok(t) => {
+                assert!(!known, "duplicate id rejected");
+                assert!(t.verif_wf(nc, nl, ne + 1));
+                assert!(t.is_external_clock(id));
+                check_frame(&before, &t, |_| false);
+                kani::cover!(true, "add ok");
+            }
+        }
+    } else {
+        match s.remove_external_clock(id) {
+            Err(e) => {
+                assert!(!external);
+                assert!(e == AlgoError::UnknownClock(id));
+            }
+            Ok(t) => {
+                assert!(external, "unknown / internal id rejected");
+                assert!(t.verif_wf(nc, nl, ne - 1));
+                assert!(!t.is_external_clock(id));
+                check_frame(&before, &t, |_| false);
+                kani::cover!(true, "remove ok");
+            }
+        }
+    }
+    kani::cover!(known, "known id reachable");
+}
+
+macro_rules! frame_harness {
+    ($name:ident, $f:ident, $n:literal, $unwind:literal, $nc:literal, $nl:literal, $ne:literal) => {
+        /// bound: pre-state exactly $nc internal clocks, $nl links, $ne external clocks
+        #[kani::proof]
+        #[kani::unwind($unwind)]
+        fn $name() {
+            $f::<$n>($nc, $nl, $ne);
+        }
+    };
+}
+
+// quick tier: smallest non-trivial pre-states
+frame_harness!(c42_b_add_clock_frame_c1_l0_e1, add_clock_frame, 16, 6, 1, 0, 1);
+frame_harness!(c42_b_remove_clock_frame_c2_l0_e0, remove_clock_frame, 16, 6, 2, 0, 0);
+frame_harness!(c42_b_add_link_frame_c1_l0_e1, add_link_frame, 9, 6, 1, 0, 1);
+frame_harness!(c42_b_remove_link_frame_c1_l1_e0, remove_link_frame, 9, 6, 1, 1, 0);
+frame_harness!(c42_b_external_frame_c1_l0_e1, external_frame, 4, 6, 1, 0, 1);
+// thorough tier: mid-size (matrix 5x5) ...
+frame_harness!(c42_tb_add_clock_frame_c1_l1_e1, add_clock_frame, 25, 7, 1, 1, 1);
+frame_harness!(c42_tb_remove_clock_frame_c2_l1_e1, remove_clock_frame, 25, 7, 2, 1, 1);
+frame_harness!(c42_tb_add_link_frame_c2_l0_e1, add_link_frame, 25, 7, 2, 0, 1);
+frame_harness!(c42_tb_remove_link_frame_c2_l1_e1, remove_link_frame, 25, 7, 2, 1, 1);
+frame_harness!(c42_tb_external_frame_c1_l1_e1, external_frame, 9, 7, 1, 1, 1);
+// ... and the stated bound: up to 3 clocks and 2 links (matrix 8x8)
+frame_harness!(c42_tb_add_clock_frame_c2_l2_e1, add_clock_frame, 64, 10, 2, 2, 1);
+frame_harness!(c42_tb_remove_clock_frame_c3_l2_e1, remove_clock_frame, 64, 10, 3, 2, 1);
+frame_harness!(c42_tb_add_link_frame_c3_l1_e1, add_link_frame, 64, 10, 3, 1, 1);
+frame_harness!(c42_tb_remove_link_frame_c3_l2_e1, remove_link_frame, 64, 10, 3, 2, 1);
+
+// ------------------------------------------------------------------------------------------------
+// time never moves backwards
+
+/// post (statement): progress_time to an earlier instant is an error naming both instants; on
+/// success the estimator's time is exactly the requested one, which is not before the old one
+/// (timestamps are 2^-64 s ticks modulo 2^128; "before" = negative shortest signed difference).
+/// Complete for the empty estimator (no loops, all 2^128 x 2^128 instants).
+#[kani::proof]
+#[kani::unwind(3)]
+fn c42_p_progress_time_monotone_empty() {
+    let t0 = any_timestamp();
+    let t1 = any_timestamp();
+    let s = EstimatorState::<SE<1>>::empty(t0);
+    let backwards = (ts_raw(t1).wrapping_sub(ts_raw(t0)) as i128) < 0;
+    match s.progress_time(t1) {
+        Err(e) => {
+            assert!(backwards);
+            assert!(e == AlgoError::NonMonotonicTimeProgression { from: t0, to: t1 });
+        }
+        Ok(t) => {
+            assert!(!backwards, "time never moves backwards");
+            assert!(ts_raw(t.verif_time()) == ts_raw(t1));
+            assert!(t.verif_wf(0, 0, 0));
+        }
+    }
+    kani::cover!(backwards, "backwards reachable");
+    kani::cover!(!backwards && ts_raw(t1) != ts_raw(t0), "forwards reachable");
+}
+
+/// same with one clock and one link in the state (bound); additionally the bookkeeping (ids,
+/// indices, shapes) survives a time step.
+#[kani::proof]
+#[kani::unwind(6)]
+fn c42_tb_progress_time_monotone_c1_l1() {
+    let s = any_wf_state::<9>(1, 1, 0);
+    let t0 = s.verif_time();
+    let t1 = any_timestamp();
+    let backwards = (ts_raw(t1).wrapping_sub(ts_raw(t0)) as i128) < 0;
+    match s.progress_time(t1) {
+        Err(e) => {
+            assert!(backwards);
+            assert!(e == AlgoError::NonMonotonicTimeProgression { from: t0, to: t1 });
+        }
+        Ok(t) => {
+            assert!(!backwards, "time never moves backwards");
+            assert!(ts_raw(t.verif_time()) == ts_raw(t1));
+            assert!(t.verif_wf(1, 1, 0));
+        }
+    }
+    kani::cover!(backwards, "backwards reachable");
+    kani::cover!(!backwards && ts_raw(t1) != ts_raw(t0), "forwards reachable");
+}
+
+/// canary: "removing a clock leaves the estimate of THAT clock readable" is false.
+#[kani::proof]
+#[kani::unwind(7)]
+fn c42_canary_remove_clock_keeps_it() {
+    let s = any_wf_state::<16>(2, 0, 0);
+    let id = s.verif_clock_id(0);
+    let t = s.remove_clock(id).unwrap();
+    assert!(t.is_internal_clock(id));
+}
+
+/// canary: "every clock keeps its ROW across a removal" is false (rows shift) - shows that the
+/// frame check really goes through the id lookup and that layouts with a shift are reachable.
+#[kani::proof]
+#[kani::unwind(7)]
+fn c42_canary_remove_clock_rows_fixed() {
+    let s = any_wf_state::<16>(2, 0, 0);
+    let id = s.verif_clock_id(0);
+    let other = s.verif_clock_id(1);
+    let r0 = s.get_clock_info(other).unwrap().base_index;
+    let t = s.remove_clock(id).unwrap();
+    assert!(t.get_clock_info(other).unwrap().base_index == r0);
+}
 
 #[cfg(all(kani, test))]
 mod replay {
